@@ -943,7 +943,9 @@ class BuiltinCalls:
                 I.oblige("sqrt", node, ok, f"sqrt argument range {x.rng} " + ("is >= 0" if ok else "may be negative"), arg=str(x.rng))
                 rng = x.rng.sqrt()
             deg = None if x.deg is None else (POLY if x.deg == POLY else x.deg / 2)
-            return Num(kinds=FLOAT, rng=rng, deg=deg, prov=prov, sym=sym)
+            r_ = Num(kinds=FLOAT, rng=rng, deg=deg, prov=prov, sym=sym)
+            I.note_range(r_)
+            return r_
         if name == "exp":
             I.ops.need_deg0(x, node, "argument of exp")
             rng = None
